@@ -861,9 +861,16 @@ func (c *CertificateContext) Sign(alg SignatureAlgorithm) (*Certificate, error) 
 		return nil, errors.New("cert: provided IssuerContext is nil. can't sign")
 	}
 
+	//RSA PKCS#1 v1.5 identifiers carry NULL parameters, ECDSA identifiers carry none (RFC 3279, RFC 5758)
+	var sigAlgParameters asn1.RawValue
+	if alg <= RSAwithSHA512 {
+		sigAlgParameters = asn1.NullRawValue
+	}
+
 	if out.TBSCertificate.SignatureAlgorithm.Algorithm == nil {
 		out.TBSCertificate.SignatureAlgorithm = pkix.AlgorithmIdentifier{
-			Algorithm: sigAlgOids[alg],
+			Algorithm:  sigAlgOids[alg],
+			Parameters: sigAlgParameters,
 		}
 	}
 	out.TBSCertificate.Issuer = c.Issuer.IssuerDn
@@ -894,6 +901,7 @@ func (c *CertificateContext) Sign(alg SignatureAlgorithm) (*Certificate, error) 
 	if err != nil {
 		return nil, err
 	}
+	out.SignatureAlgorithm.Parameters = sigAlgParameters
 
 	hashAlg.Write(b)
 	digest = hashAlg.Sum(nil)
